@@ -218,6 +218,8 @@ def postprocess(rows):
                     continue
                 seen.add(key)
                 out.append({"sc": r.get("sc"), "h": r.get("h"), "ev": "Race", "g": r.get("g"), "var": var, "sites": sites})
+            elif ca[0] == "harness" and cb[0] == "harness":
+                pass        # a race between two pieces of harness code says nothing about Vouch
             elif "harness" in (ca[0], cb[0]):
                 harness.append({"g": r.get("g"), "sites": sites})
             else:
@@ -292,7 +294,7 @@ def check(v, scs, tier, gs, confirm=True):
     raw = run_all(v, scs, tier, "batch", gs)
     rows, harness = postprocess(raw)
     if harness:
-        raise vf.Broken("the race detector reports a race involving harness code (fix the harness): %s" % harness[:3])
+        raise vf.Broken("the race detector reports a race between harness code and Vouch code (fix the harness): %s" % harness[:3])
     hist = histories(rows)
     stuck = [k for k, rs in hist if any(r.get("ev") == "Stuck" for r in rs)]
     v.coverage["evaluations"] += len(hist)
@@ -404,8 +406,10 @@ def run(tier):
     ]
     gs = groups()
     full = gs == GROUPS
+    # the exhaustive run is part of every run (also of development runs restricted with VERIF_C17_GROUPS):
+    # evidence.states / transitions are always those of THIS run
+    v.add_mc(vf.tlc_exhaustive(PID, "Concurrency", "MC_Concurrency.cfg"))
     if full:
-        v.add_mc(vf.tlc_exhaustive(PID, "Concurrency", "MC_Concurrency.cfg"))
         if tier == "thorough":
             v.add_mc(vf.tlc_exhaustive(PID, "Concurrency", "MC_Concurrency_big.cfg", timeout=1500))
         # non-vacuity of the lock discipline: the pinned rendering of the suspected defects must violate Disciplined
